@@ -31,9 +31,31 @@ Alphabet == IF Alpha = "small" THEN Small ELSE Small \o Extra
 Res == Parse(seq)
 Viable == LET r == Res IN IF r.ok THEN TRUE ELSE r.at = Len(seq) + 1
 
-Init == seq = <<>>
-Next == /\ Len(seq) < N /\ Viable
-        /\ \E i \in 1..Len(Alphabet) : seq' = Append(seq, Alphabet[i])
+\* Alpha = "pairs": instead of all sequences, the operator-interaction templates over EVERY operator
+\* spelling:  a o1 b o2 c,  u a o1 b,  a o1 u b,  a . k o1 b,  a o1 b . 0,  if a o1 b then c else d o2 e
+BinOps == << K("and"), K("or"), K("="), K("=="), K("!="), K(">"), K("<"), K(">="), K("<="), K("+"), K("-"), K("*"), K("/"), K("%"),
+             K("&"), K("|"), K("^"), K("contains"), K("in") >>
+UnOps == << K("-"), K("!") >>
+Ia == T("IDENT", "a")  Ib == T("IDENT", "b")  Ic == T("IDENT", "c")  Id == T("IDENT", "d")  Ie == T("IDENT", "e")
+PairSeqs ==
+  {<<Ia, BinOps[i], Ib, BinOps[j], Ic>> : i, j \in 1..Len(BinOps)}
+  \cup {<<UnOps[u], Ia, BinOps[i], Ib>> : u \in 1..2, i \in 1..Len(BinOps)}
+  \cup {<<Ia, BinOps[i], UnOps[u], Ib>> : u \in 1..2, i \in 1..Len(BinOps)}
+  \cup {<<UnOps[u], UnOps[w], Ia>> : u, w \in 1..2}
+  \cup {<<Ia, K("."), T("IDENT", "k"), BinOps[i], Ib>> : i \in 1..Len(BinOps)}
+  \cup {<<Ia, BinOps[i], Ib, K("."), T("INDEX", "0")>> : i \in 1..Len(BinOps)}
+  \cup {<<UnOps[u], Ia, K("."), T("IDENT", "k")>> : u \in 1..2}
+  \cup {<<K("if"), Ia, BinOps[i], Ib, K("then"), Ic, K("else"), Id, BinOps[j], Ie>> : i, j \in 1..Len(BinOps)}
+  \cup {<<Ia, BinOps[i], K("("), Ib, BinOps[j], Ic, K(")")>> : i, j \in 1..Len(BinOps)}
+  \cup {<<Ia, BinOps[i], Ib, BinOps[j], Ic, BinOps[k], Id>> : i, j, k \in {1, 3, 10, 12, 14, 15, 18}}
+
+Init == IF Alpha = "pairs" THEN seq \in {<<>>} \cup {<<BinOps[i]>> : i \in 1..Len(BinOps)} ELSE seq = <<>>
+\* in pairs mode the (dummy) one-token states only spread the templates over the workers
+Next == IF Alpha = "pairs"
+        THEN /\ Len(seq) = 1
+             /\ \E s \in {x \in PairSeqs : x[2] = seq[1] \/ (x[2].c \notin {BinOps[i].c : i \in 1..Len(BinOps)} /\ seq[1].c = "and")} : seq' = s
+        ELSE /\ Len(seq) < N /\ Viable
+             /\ \E i \in 1..Len(Alphabet) : seq' = Append(seq, Alphabet[i])
 
 RECURSIVE Join(_, _)
 Join(ts, i) == IF i > Len(ts) THEN <<>> ELSE (IF i = 1 THEN <<>> ELSE <<32>>) \o ts[i].s \o Join(ts, i + 1)
@@ -41,7 +63,7 @@ Text == Join(seq, 1)
 
 \* the lexer reads the rendered text back as the same tokens
 LexRoundTrip == LET l == Lex(Text) IN l.ok /\ l.toks = seq
-Emit == seq # <<>> => LET r == Res IN
+Emit == (seq # <<>> /\ (Alpha = "pairs" => Len(seq) > 1)) => LET r == Res IN
         PrintT("CASE " \o ToJson([text |-> Text, x |-> IF r.ok THEN [ok |-> TRUE, t |-> r.t] ELSE [ok |-> FALSE],
                                    rule |-> RuleFromToks(seq, Text)]))
 =============================================================================
